@@ -162,6 +162,11 @@ def check_property(prop, tier, seed):
             fn = (d.info or {}).get("fn") or ""
             if fn.startswith("vacuity_"):
                 continue
+            if (d.info or {}).get("kind") == "verbatim" and (d.clause_info or {}).get("kind") in (None, "verbatim"):
+                # a failure inside the proof library itself (lemmas / prelude text that does not depend on /repo) is solver
+                # instability, never evidence against the code: UNDECIDED
+                undecided.append(f"proof-library obligation failed in {u.name}:{fn} ({d.msg}): solver instability, not a violation")
+                continue
             if prop in d.props() or not d.props():
                 failed.append(d)
             else:
